@@ -12,7 +12,12 @@ import RV.Base.Proto
     cq m U g | cqs m U g | qname m U | qstrict m U | curie m U g | n3 m U | expand S | reset m
     parse m P N P N …  | parsexml m P N P N … | ser m S P O
     split strict U                       -> split <ns>l | err ValueError   (split_uri, stateless)
+    ncname S                             -> nc 0|1                          (is_ncname, stateless)
+    catrange lo hi                       -> cats <name>*<count> …           (unicodedata.category over lo ≤ c < hi, run-length encoded)
     serdoc m fb U g U g …                   -> doc <d>n …> (document prefix table), then reset m
+    sertrig fb m U g U g … / m U g …        -> doc <d>n …> (TriG: contexts separated by `/`, each with its manager), then reset both
+    serxml m P … / P …                      -> doc <p>n …> (RDF/XML: the set of predicates / the predicate of every statement written)
+    minit m cc | minit m <anything else>    -> err Other | err ValueError (no manager is created)
 
   Output of every operation:  `<out>|L <p>n sorted>|P <p>n lookups>|N <n>p lookups>`
   with strings printed raw, None as `~`.
@@ -36,7 +41,7 @@ def bool? (w : String) : Option Bool :=
 
 def bset? (w : String) : Option BindSet :=
   if w = "none" then some .none else if w = "core" then some .core
-  else if w = "rdflib" then some .rdflib else none
+  else if w = "rdflib" then some .rdflib else if w = "cc" then some .cc else some .unknown
 
 def raw (s : Str) : String := String.mk (s.map Char.ofNat)
 def rawO : Option Str → String
@@ -81,6 +86,14 @@ def ugs? : List String → Option (List (Str × Bool))
     let u ← str? u; let g ← bool? g; let r ← ugs? r
     pure ((u, g) :: r)
 
+/-- split a word list at the words `/` -/
+def splitSlash : List String → List (List String)
+  | [] => []
+  | ws =>
+    let go := ws.foldr (fun w (acc : List String × List (List String)) =>
+      if w = "/" then ([], acc.1 :: acc.2) else (w :: acc.1, acc.2)) ([], [])
+    go.1 :: go.2
+
 def parseOp : List String → Option Op
   | ["minit", m, b] => do pure (.minit (← bool? m) (← bset? b))
   | ["bind", m, p, n, ov, rp] => do pure (.bind (← bool? m) (← ostr? p) (← str? n) (← bool? ov) (← bool? rp))
@@ -100,7 +113,27 @@ def parseOp : List String → Option Op
     pure (.parse (← bool? m) ps)
   | "parsexml" :: m :: r => do pure (.parsexml (← bool? m) (← pairs? r))
   | "serdoc" :: m :: fb :: r => do pure (.serdoc (← bool? m) (← bool? fb) (← ugs? r))
+  | "serxml" :: m :: r => do
+    match splitSlash r with
+    | [ps, ss] => pure (.serxml (← bool? m) (← ps.mapM str?) (← ss.mapM str?))
+    | _ => none
+  | "sertrig" :: fb :: r => do
+    let cs ← (splitSlash r).mapM (fun c => match c with
+      | m :: ugs => do pure ((← bool? m), (← ugs? ugs))
+      | [] => none)
+    pure (.sertrig (← bool? fb) cs)
   | _ => none
+
+/-- run-length encoding of `category` over `lo, lo+1, …` (`n` code points) -/
+def catRle : Nat → Nat → Option (Nat × Nat) → List (Nat × Nat) → List (Nat × Nat)
+  | 0, _, cur, acc => (match cur with | some r => r :: acc | none => acc).reverse
+  | n + 1, c, cur, acc =>
+    let k := category c
+    match cur with
+    | some (k', m) => if k' = k then catRle n (c + 1) (some (k', m + 1)) acc else catRle n (c + 1) (some (k, 1)) ((k', m) :: acc)
+    | none => catRle n (c + 1) (some (k, 1)) acc
+
+def catName (k : Nat) : String := (Tables.catNames[k]?).getD "??"
 
 def vocab? (ws : List String) : Option (List Str × List Str) :=
   match ws.span (· ≠ "|") with
@@ -121,6 +154,16 @@ def step (d : D) (ws : List String) : D × String :=
       (d, (match splitUri (if b then Tables.nameStartCats else Tables.splitStartCats) u with
            | some (n, l) => "split " ++ raw n ++ ">" ++ raw l
            | none => "err ValueError") ++ listing d)
+    | _, _ => (d, "bad-op")
+  | ["ncname", u] =>
+    match str? u with
+    | some u => (d, (if isNcname u then "nc 1" else "nc 0") ++ listing d)
+    | none => (d, "bad-op")
+  | ["catrange", lo, hi] =>
+    match lo.toNat?, hi.toNat? with
+    | some lo, some hi =>
+      (d, "cats " ++ " ".intercalate ((catRle (hi - lo) lo none []).map (fun km => catName km.1 ++ "*" ++ toString km.2))
+            ++ listing d)
     | _, _ => (d, "bad-op")
   | _ =>
     match parseOp ws with
